@@ -13,12 +13,13 @@ RULE = ("validations of structurally valid messages (all four QBFT types, decide
         "validators, signed and unsigned era) with every mutation of a table of ~85 single mutations, adversarial "
         "field values (0, 1, 2^62, 2^63, 2^64-1 and their neighbours of the current slot for round/height/slot, "
         "out-of-range types and roles, 0/1/q-1/q/n/n+1/13/14 signers), after prefixes of accepted messages, plus the "
-        "hand-written decoders on their abstract inputs, >= 10^5 random/mutated byte strings on the generated "
+        "hand-written decoders on their abstract inputs (incl. node-record entries of every short length), >= 10^5 random/mutated byte strings on the generated "
         "decoders and the metrics-label stream; non-trivial = a case whose message under test is not the plain honest message (mutation != none, "
         "adversarial values, history with replays) or a decoder case; distinct by op lines")
 TRUSTED_BASE = [
     "modelled, not verified: message/validation/*.go, network/commons/common.go (DecodeSignedSSVMessage), "
-    "network/records/subnets.go (FromString, SharedSubnets), signed_node_info.go (post-JSON logic), "
+    "network/records/subnets.go (FromString, SharedSubnets), signed_node_info.go (post-JSON logic), entries.go "
+    "(DomainTypeEntry.DecodeRLP after the RLP string is read), "
     "ssv-spec RoundRobinProposer; Go's time.Time/Duration arithmetic is re-stated in the model",
     "oracle bits of the abstract envelope computed by the driver with real code: SSZ/JSON decoders, SHA-256 root "
     "comparison, RSA verification (crypto/rsa), BLS public key deserialisation, instance.IsProposalJustification, "
@@ -98,7 +99,8 @@ LEVEL_TEXT = ("Machine-checked theorems: for every configuration with committees
               "(default: panic arms of maxRound, partialSignatureTypeMatchesRole, MessageCounts.{Validate,Record}*, "
               "RoundRobinProposer's index and modulo, array conversion, nil metadata, type assertions) is an explicit "
               "Panic branch of the model and is shown unreachable; the same over all histories; "
-              "DecodeSignedSSVMessage, Subnets.FromString, SharedSubnets and the post-JSON part of "
+              "DecodeSignedSSVMessage, Subnets.FromString, SharedSubnets, the node-record entry decoder "
+              "DomainTypeEntry.DecodeRLP (F12, repaired) and the post-JSON part of "
               "SignedNodeInfo.UnmarshalRecord are total. The model follows the Go code statement by statement and is "
               "tied to it by running both on the same inputs and diffing verdict class, error and the complete "
               "signer state after every validation. Proof is the right level because a crash needs one particular "
